@@ -7,8 +7,9 @@ Open Scope N_scope.
 
 (* "No file the server writes ever contains a secret value in plain or trivially encoded form,
    the database file and its temporaries likewise never expose secret names": for EVERY
-   history [h] of calls (any callers, any save/audit faults, any nonces) and REOPENS of the
-   file with the same key, from any state, let
+   history [h] - of ANY length - of calls (any callers, any save/audit faults, any nonces),
+   REOPENS of the file with the same key and rounds of the BACKUP task (which copies the file
+   as it is to the object store: one more place where the attacker finds it), from any state, let
    [files] be every database file and temporary written and [audits] every audit line.  An
    attacker holding any set K0 of terms that are themselves free of the two keys, of values
    (and, second part, of names) in clear - and able to take structures apart, undo EVERY
@@ -85,7 +86,7 @@ Proof. exact open_via_dec. Qed.
 
 (* "The key-encryption key is consulted only when the database is opened or created, never by
    later reads or writes": along ANY history of calls - each with ANY outcome of its save (accepted or refused by the
-   file system: [ev.save_ok]) and of its audit record - and reopens, the key is used once at
+   file system: [ev.save_ok]) and of its audit record - reopens and backup rounds - of any length: there is no counter - the key is used once at
    creation and exactly once per reopen - so by no call, in particular not by the first write
    after a reopen; no save uses it (the saved file is a function of the data key and the
    stored wrapped-key bytes only) *)
@@ -159,6 +160,21 @@ Example C05_ex_refused :
   let '(files, audits, uses) := run_terms 7 c (db_create N) (first_file c 99)
      [HCall okenv su (OPut [97] 5) 100; HCall badenv su (OPut [97] 6) 101; HReopen; HCall badenv su (ODel [97]) 102] in
   (length files, length audits, uses) = (4%nat, 3%nat, 1).
+Proof. vm_compute. reflexivity. Qed.
+(* backup rounds copy the file and use no key; and volume changes nothing: after 1200 saves in
+   one process (a put, an activate and a delete-version, 400 times) the key has still been used
+   only by the one reopen - there is no counter in [c_save] *)
+Fixpoint cycles (n : nat) (v : N) : list hstep :=
+  match n with
+  | O => []
+  | S n' => HCall okenv su (OPut [97] (1 + v mod 2)) v :: HCall okenv su (OActivate [97] (v + 2)) 0
+            :: HCall okenv su (ODelVer [97] (v + 1)) 0 :: cycles n' (v + 1)
+  end.
+Example C05_ex_backup_and_volume :
+  let c := fst (c_create 7 9 0) in
+  let '(files, audits, uses) := run_terms 7 c (db_create N) (first_file c 99)
+     (HCall okenv su (OPut [97] 2) 1 :: HBackup :: cycles 400 0 ++ [HBackup; HReopen; HBackup]) in
+  (length files, uses) = ((2 + 1 + 2 * 1200 + 2)%nat, 1).
 Proof. vm_compute. reflexivity. Qed.
 Example C05_ex_open_attempts :
   let f := file_of 7 9 0 1 (Sec 3) in
